@@ -160,6 +160,50 @@ def indented(rep, F, rule="literal-block-indented"):
     return n
 
 
+def every_line_written(rep, F, rule="literal-block-every-line-written"):
+    """(b') one round of the content loop writes the line it was given: on every path from the loop head round to the back edge (E7) the
+    text of the line is written after the line feed.  The only rounds that may write no text are those taken when `str::is_empty` of the
+    line itself (the item of str::lines) is true - an empty line has no text; any other test (a trimmed line, a length limit) drops
+    content: white-space-only lines are content of a literal block."""
+    f = F.fns.get(EMITTER + "::emit_literal_block")
+    if f is None:
+        raise facts.MissingAnchor("emit_literal_block not found")
+    rec = LitRec(f)
+    ps = [p for p in e7.paths(f, 0, rec, limit=5000) if p["why"] == "back-edge"]
+    if not ps:
+        raise facts.MissingAnchor("emit_literal_block: no path goes round a content loop")
+
+    def empty_line_test(bi):
+        t = f.blocks[bi]["term"]
+        e = cfg.expr_operand(f, t["discr"], 10)
+        if not (e[0] == "call" and e[1] == "str::is_empty" and len(e[2]) == 1):
+            return False
+        a = e[2][0]
+        while a[0] == "ref":
+            a = a[1]
+        return a[0] == "place" and a[1][0] == "call" and a[1][1].endswith("Lines as std::iter::Iterator>::next") and \
+            [x for x in a[2] if x != "deref"] == [("downcast", "Some"), ("field", "0")]
+    n = 0
+    bad = []
+    for p in ps:
+        ops = p["ops"]
+        if ("nl",) not in ops:
+            continue
+        n += 1
+        last_nl = max(i for i, o in enumerate(ops) if o == ("nl",))
+        if any(o[0] == "text" for o in ops[last_nl:]):
+            continue
+        justified = False
+        for k, cons in p["guards"].items():
+            if k[0] == "opaque" and isinstance(k[1], int) and empty_line_test(k[1]) and not cons.admits(0):
+                justified = True
+        if not justified:
+            bad.append([o[0] for o in ops])
+    rep.check(not bad, rule, "emit_literal_block", "a round of the content loop writes the line feed but not the text of the line, on a path not guarded by "
+              "`line.is_empty()`: that line's characters (blanks are content inside a literal block) are lost; ops on the path: %s" % (bad[:1],), site=f.span)
+    return n
+
+
 def not_for_keys(rep, F, rule="simple-key-not-a-block-scalar"):
     n = 0
     # (i) emit_literal_block only under self.multiline_strings
